@@ -13,10 +13,13 @@ def run(chk, args):
     chk.assumptions = ["floats are compared as tokens of their bit patterns (all NaNs one token)",
                        "'metadata up to JSON stringification' is stated independently in the driver: JSON-native values as they are, Path as str, anything else as repr",
                        "save() (with its plot savers) is exercised with finite gap matrices; a repeated name may raise FileExistsError in the plot saver, the clause is on data.json",
-                       "model: all save sequences of length <= 5 over 3 names x 4 entries"]
+                       "model: all save sequences of length <= 5 over 3 names x 4 entries (TLC); files of up to 8 integer names, any number of saves (Apalache, inductive)"]
     import json
     q = chk.tier == "quick"
     chk.model_check("MC_ResultsFile", "MC_ResultsFile.cfg")
+    # unbounded histories: the same Save / EarlierUnchanged operators, inductive argument with Apalache (and a mutated Save must fail it)
+    chk.apalache_inductive("Apa_ResultsFile", "NeverOverwritten", nxt="NextAny",
+                           mutate=("ResultsFile.tla", "IF name \\in DOMAIN file THEN file\n", "IF name \\in DOMAIN file THEN [x \\in DOMAIN file |-> IF x = name THEN entry ELSE file[x]]\n"))
     summ = vlib.run_driver("drv_save", ["--out", str(chk.wd / "sv"), "--seed", str(chk.seed), "--count", str(40 if q else 300), "--nsaves", str(8 if q else 12),
                                         "--commands", str(4 if q else 30)], chk.wd, timeout=3000)
     f = summ["files"][0]
